@@ -417,6 +417,9 @@ class LogixDriver(CIPDriver):
             self._info["programs"] = {}
             self._info["tasks"] = {}
             self._info["modules"] = {}
+        else:  # a single program may be the first thing uploaded (init_tags=False)
+            for key in ("programs", "tasks", "modules"):
+                self._info.setdefault(key, {})
 
         self.__log.info("Starting tag list upload...")
         if program == "*":
